@@ -52,9 +52,9 @@ type c06StubOT struct {
 	ch chan []ot.Wire
 }
 
-func newC06Stub() *c06StubOT                       { return &c06StubOT{ch: make(chan []ot.Wire, 1)} }
-func (s *c06StubOT) InitSender(io ot.IO) error    { return nil }
-func (s *c06StubOT) InitReceiver(io ot.IO) error  { return nil }
+func newC06Stub() *c06StubOT                     { return &c06StubOT{ch: make(chan []ot.Wire, 1)} }
+func (s *c06StubOT) InitSender(io ot.IO) error   { return nil }
+func (s *c06StubOT) InitReceiver(io ot.IO) error { return nil }
 func (s *c06StubOT) Send(wires []ot.Wire) error {
 	s.ch <- append([]ot.Wire(nil), wires...)
 	return nil
@@ -956,6 +956,32 @@ func c06AllImpls(c *Ctx) error {
 			p0, p1 := ot.NewPipe()
 			c06RunOT(c, fmt.Sprintf("rsa%d-n%d", kb, n), fmt.Sprintf("rsa-%d", kb), ot.NewRSA(r.Fork(), kb), ot.NewRSA(r.Fork(), kb),
 				p0, p1, c06Batches(r, n, n <= 17, si), false, nil, nil)
+		}
+	}
+	// Long-lived objects re-initialised in ALTERNATING roles over new connections (two peers taking
+	// turns as sender): CO and RSA objects can be initialised again in either role (an ot.COT / ot.ROT
+	// object serves one initialisation per role by design: "already initialized").  Every session
+	// delivers exactly the chosen labels.
+	for _, impl := range []string{"co", "rsa-1024"} {
+		r := c.rng.Fork()
+		var a, b ot.OT
+		if impl == "co" {
+			a, b = ot.NewCO(r.Fork()), ot.NewCO(r.Fork())
+		} else {
+			a, b = ot.NewRSA(r.Fork(), 1024), ot.NewRSA(r.Fork(), 1024)
+		}
+		for si, aSends := range []bool{true, false, true, true, false, true} {
+			snd, rcv := a, b
+			if !aSends {
+				snd, rcv = b, a
+			}
+			p0, p1 := ot.NewPipe()
+			n := []int{3, 1, 5, 2, 9, 4}[si]
+			c.Hist("ot:" + impl + ":alternating-roles")
+			if !c06RunOT(c, fmt.Sprintf("%s-alternating-roles-session%d", impl, si+1), impl+":alternating-roles", snd, rcv, p0, p1,
+				[]*c06Batch{c06MkBatch(r, n, "random")}, false, nil, nil) {
+				break
+			}
 		}
 	}
 	// RSA byte exact: real key size with the exponentiations as a table,
